@@ -13,6 +13,7 @@ From PV Require Export Model.TransformX.
 From PV Require Export Model.DecompX.
 From PV Require Export Model.SourceX.
 From PV Require Export Model.LossX.
+From PV Require Model.CacheMachineX.   (* C05; qualified *)
 
 Definition dispatch (f : Z) (x : sx) : sx :=
   match f with
@@ -43,5 +44,9 @@ Definition dispatch (f : Z) (x : sx) : sx :=
   | 600 => x_get_probs x | 601 => x_one_photon x | 602 => x_prob_dist x | 603 => x_generate x | 604 => x_prob_table x
   | 605 => x_from_noise x | 606 => x_generate_filtered x | 607 => x_event_law x
   | 1003 => ConnectorX.x_conn_run_old x
+  (* C05: 500 = SLOS cache machine (fixA, fixB, history), 501 = closed form of a configuration, 502 = MPS bond
+     dimension, 503 = iterator cache keys *)
+  | 500 => CacheMachineX.x_slos_run x | 501 => CacheMachineX.x_slos_spec x | 502 => CacheMachineX.x_mps_run x
+  | 503 => CacheMachineX.x_iter_run x
   | _ => L []
   end%Z.
